@@ -473,8 +473,8 @@ def refine_batch(ctx, n, salt=31, force=None, name="trace-refinement", pid=None)
     rng = ctx.rng(salt)
     all_lines = []
     metas = []
-    for _ in range(n):
-        spec = R.rand_spec(rng, **(force(rng) if callable(force) else (force or {})))
+    for cs in R.corpus_specs() + [None] * n:
+        spec = cs if cs is not None else R.rand_spec(rng, **(force(rng) if callable(force) else (force or {})))
         try:
             run, lines, expect, kinds = refine_run(spec)
         except Exception as ex:
